@@ -23,7 +23,7 @@ pub fn prop() -> Prop {
 }
 
 fn describe(ctx: &Ctx) {
-    ctx.rule("sources: every readable file of /repo/tests/test_files (x generated single-cell edits) and generated workbooks (cells of all kinds, formulas); chain orig -> L0 -> save -> L1 -> save -> L2 -> save -> L3 in memory; oracles: (i) dump(L1)==dump(L2)==dump(L3) on the full public-getter dump, (ii) dump(L0)==dump(L1) on the same dump, (iii) a single-cell edit changes exactly that cell (plus the row/column entry the API creates for a new cell), (iv) saving the same workbook twice gives the same part names and the same reloaded content, (v) Python leg: an independent decoder accepts gen1..gen3 as valid packages, decodes the original and gen1 to the same cells (kind, value, formula, style RESOLVED through cellXfs), merges, hyperlinks, defined names, comments, validation / conditional-format ranges and sheet list, and decodes gen1, gen2, gen3 identically (incl. styles.xml and shared-string table sizes). Non-trivial = source has a formula, hyperlink, non-default style, or text needing XML escaping; distinct by (source, edit)");
+    ctx.rule("sources: every readable file of /repo/tests/test_files (plain, and with generated single-cell edits incl. edits on a lazily reopened first re-save), generated workbooks (cells of all kinds, formulas, a share placed through set_cell), styled workbooks (C05's case type: style families, setter histories, row/column settings), annotated workbooks (C06's spec), Excel-2010 (x14) data validations, sheets whose only drawing objects are one-cell-anchored shapes; chain orig -> L0 -> save -> L1 -> save -> L2 -> save -> L3 in memory; oracles: (i) dump(L1)==dump(L2)==dump(L3) on the full public-getter dump (styles through the effective-style projection), (ii) semantic projection + C06 keyed annotation projection equal between L0 and L1, (iii) a single-cell edit changes exactly that cell (plus the row/column entry the API creates for it), (iv) saving the same workbook twice gives the same part names and the same reloaded content, (v) Python legs: every generation passes the independent validator, decode(orig) ~ decode(gen1) on the resolved projection incl. styles, decode(gen1)==decode(gen2)==decode(gen3) modulo numbering. Non-trivial = source has a formula, hyperlink, non-default style, or text needing XML escaping (x14/shape sources always); distinct by (source, edit)");
     ctx.assume("dump = Debug rendering of what public getters return, keyed by sheet/cell/row/column/part; cells that show nothing (no value, no formula, default style, no hyperlink) are dropped (declared normalisation)");
     ctx.assume("the style table (xf numbering), shared-string indexes and relationship ids are not part of the dump: renumbering is a declared normalisation");
 }
